@@ -14,6 +14,7 @@ import (
 
 	"github.com/TarsCloud/TarsGo/tars/protocol/codec"
 
+	"verifharness/codecrun"
 	"verifharness/common"
 )
 
@@ -30,6 +31,9 @@ type op struct {
 }
 
 func (o op) line() string {
+	if o.Kind == "skipend" || o.Kind == "skipendrec" || o.Kind == "skipstack" {
+		return o.Kind + " " + o.Hex
+	}
 	if o.Kind == "w" {
 		return fmt.Sprintf("w %s %d %s", o.Ty, o.Tag, o.Val)
 	}
@@ -587,11 +591,119 @@ func genOps(o *common.Opts, rng *rand.Rand, res *common.Result) []op {
 		}
 		ops = append(ops, op{Kind: "r", Ty: rt, Tag: rtag, Req: rng.Intn(2) == 0, Val: oldFor(rt), Hex: common.Hex(enc)})
 	}
+	// 4. SkipToStructEnd (the iterative skip) on struct bodies: well-formed members of every wire
+	// type and nesting, then mutated, truncated, random, and deeply nested ones
+	nskip := 3000
+	if o.Thorough() {
+		nskip = 150000
+	}
+	for i := 0; i < nskip; i++ {
+		var body []byte
+		n := rng.Intn(5)
+		tag := rng.Intn(3)
+		for k := 0; k < n; k++ {
+			kinds := []int{0, 1, 2, 3, 4, 5, 6, 7, 8, 9, 10, 12, 13}
+			body = append(body, codecrun.WFField(rng, kinds[rng.Intn(len(kinds))], tag, 0)...)
+			tag += 1 + rng.Intn(20)
+		}
+		body = append(body, 0x0b)
+		switch rng.Intn(6) {
+		case 0:
+			if len(body) > 0 {
+				body = body[:rng.Intn(len(body))]
+			}
+		case 1:
+			if len(body) > 0 {
+				body = append([]byte{}, body...)
+				body[rng.Intn(len(body))] ^= 1 << uint(rng.Intn(8))
+			}
+		case 2:
+			body = make([]byte, rng.Intn(24))
+			rng.Read(body)
+		case 3:
+			extra := make([]byte, rng.Intn(5))
+			rng.Read(extra)
+			body = append(body, extra...)
+		}
+		if len(body) > 3000 {
+			body = body[:3000]
+		}
+		h := common.Hex(body)
+		ops = append(ops, op{Kind: "skipend", Hex: h}, op{Kind: "skipendrec", Hex: h}, op{Kind: "skipstack", Hex: h})
+	}
+	for _, d := range []int{1, 2, 17, 300, 5000} {
+		for _, unit := range [][]byte{{0x0a}, {0x09, 0x00, 0x01}, {0x08, 0x00, 0x01, 0x0c}, {0x0a, 0x09, 0x00, 0x02}} {
+			var body []byte
+			for k := 0; k < d; k++ {
+				body = append(body, unit...)
+			}
+			if d == 17 {
+				for k := 0; k < d+1; k++ {
+					body = append(body, 0x0b)
+				}
+			}
+			h := common.Hex(body)
+			ops = append(ops, op{Kind: "skipend", Hex: h}, op{Kind: "skipendrec", Hex: h}, op{Kind: "skipstack", Hex: h})
+		}
+	}
 	return ops
 }
 
+func implSkipEnd(data []byte) (out string) {
+	defer func() {
+		if r := recover(); r != nil {
+			out = fmt.Sprintf("panic %v", r)
+		}
+	}()
+	rd := codec.NewReader(data)
+	if err := rd.SkipToStructEnd(); err != nil {
+		return "err"
+	}
+	return fmt.Sprintf("ok - %d", implPos(rd, len(data)))
+}
+
+var lastSkipImpl, lastSkipIter string
+
 func check(c op, modelAns string, res *common.Result, verbose bool) {
 	switch c.Kind {
+	case "skipend", "skipendrec", "skipstack":
+		data := unhex(c.Hex)
+		if verbose {
+			fmt.Printf("%s model: %s\n", c.Kind, modelAns)
+		}
+		if modelAns == common.NoModel {
+			return
+		}
+		switch c.Kind {
+		case "skipend":
+			impl := canonImpl(implSkipEnd(data))
+			lastSkipImpl, lastSkipIter = impl, canonModel(modelAns, len(data))
+			cls := "skip-err"
+			if strings.HasPrefix(impl, "ok") {
+				cls = "skip-ok"
+			}
+			key := "skip/" + c.Hex
+			if len(key) > 120 {
+				key = key[:120]
+			}
+			res.Count(key, cls, len(data) > 0)
+			if impl != lastSkipIter {
+				res.Diverge(common.Case{Stream: "wire", Op: c, Model: trunc(modelAns), Impl: trunc(impl), Note: "iterative skip model vs codec.go"})
+			}
+			if impl == "panic" {
+				res.Violate(common.Violation{Signature: "C02:panic:SkipToStructEnd", What: "skip panicked", Case: common.Case{Stream: "wire", Op: c, Impl: impl}})
+			}
+			res.TracesValidated++
+		case "skipendrec":
+			if canonModel(modelAns, len(data)) != lastSkipIter {
+				res.Diverge(common.Case{Stream: "wire", Op: c, Model: trunc(modelAns), Impl: lastSkipIter, Note: "recursive specification vs iterative model (theorem skipToStructEndIter_eq)"})
+			}
+		case "skipstack":
+			n, _ := strconv.Atoi(modelAns)
+			if n > len(data)+1 {
+				res.Diverge(common.Case{Stream: "wire", Op: c, Model: modelAns, Note: "skip stack higher than the input is long"})
+			}
+		}
 	case "w":
 		impl := implWrite(c.Ty, byte(c.Tag), c.Val)
 		if verbose {
